@@ -510,10 +510,12 @@ impl MaTreeNode {
 
         let mut lower_bound = value;
         let mut upper_bound = value;
-        let mut stack = vec![
-            (&**left, (value + 1)..=i32::MAX),
-            (&**right, i32::MIN..=value),
-        ];
+        let mut stack = Vec::with_capacity(2);
+        // No property value is greater than `i32::MAX`; the left child is unreachable then.
+        if let Some(left_start) = value.checked_add(1) {
+            stack.push((&**left, left_start..=i32::MAX));
+        }
+        stack.push((&**right, i32::MIN..=value));
         let mut range_nodes = Vec::new();
         while let Some((node, range)) = stack.pop() {
             let node = node.next_decision_node(channel, stream_idx, prev_channels);
@@ -568,7 +570,7 @@ impl MaTreeNode {
         let mut indices = vec![0u32; index_count];
         let mut nodes = Vec::with_capacity(range_nodes.len());
 
-        let mut range_start = lower_bound - 1;
+        let mut range_start = lower_bound as i64 - 1;
         let mut next_index = 0usize;
         for (idx, (node, range_end)) in range_nodes.into_iter().enumerate() {
             if range_end == i32::MAX {
@@ -576,12 +578,12 @@ impl MaTreeNode {
                 nodes.push(node);
                 break;
             }
-            let len = range_end.abs_diff(range_start) as usize;
+            let len = (range_end as i64 - range_start) as usize;
             let end_index = next_index + len;
             indices[next_index..end_index].fill(next_index_base + idx as u32);
             nodes.push(node);
             next_index = end_index;
-            range_start = range_end;
+            range_start = range_end as i64;
         }
 
         let node = FlatMaTreeNode::Table {
